@@ -77,7 +77,7 @@ RETS = [{"kind": "none"}, {"kind": "bool", "v": False}, {"kind": "int", "v": 0},
         {"kind": "int", "v": 255}, {"kind": "int", "v": 256}, {"kind": "int", "v": 1}]
 RAISES = ([{"type": t} for t in ("RuntimeError", "KeyError", "Coded", "CodedText", "CodedNone", "CannotParse", "NoSuchOption",
                                  "KeyboardInterrupt")]
-          + [{"type": "RuntimeError", "msg": m} for m in ("multiline", "nonascii", "balanced", "opening", "closing",
+          + [{"type": "RuntimeError", "msg": m} for m in ("multiline", "nonascii", "surrogate", "balanced", "opening", "closing",
                                                           "mismatched", "anyclose", "lt", "empty")]
           + [{"type": "CannotParse", "msg": m} for m in ("closing", "mismatched", "balanced")]
           + [{"type": "RuntimeError", "scope": True}, {"type": "KeyError", "scope": True, "msg": "multiline"}]
@@ -92,7 +92,8 @@ LISTENERS = [[], [{"kind": "pass"}], [{"kind": "handled", "code": {"kind": "int"
              [{"kind": "pass"}, {"kind": "fail", "exc": {"type": "KeyboardInterrupt"}}],
              [{"kind": "handled", "code": {"kind": "none"}, "stop": False}]]
 VERBOSITIES = [0, 1, 2, 4]
-ENCODINGS = [["ascii", "ascii"], ["utf-8", "ascii"], ["ascii", "utf-8"], ["latin-1", "utf-8"], ["utf-8", "utf-8"]]
+ENCODINGS = [["ascii", "ascii"], ["utf-8", "ascii"], ["ascii", "utf-8"], ["latin-1", "utf-8"], ["utf-8", "utf-8"],
+             [None, None]]       # None: a text stream without an encoding of its own (io.StringIO)
 LINES = [["cmd", "x"], ["nope"], ["cmd", "--unknown"], ["cmd", "x", "y", "z"]]
 
 
@@ -149,13 +150,17 @@ def _app(case, io):
     c.set_handler(H.Handler(case["outcome"]))
     prio = 10
     for l in case["listeners"]:
-        cfg.add_event_listener(PRE_HANDLE, _listener(l), prio)
+        cfg.add_event_listener(PRE_HANDLE, _listener(l, 10 - prio), prio)      # index = position in the case's list
         prio -= 1
     return ConsoleApplication(cfg)
 
 
-def _listener(l):
+LISTENER_CALLS = []
+
+
+def _listener(l, index=None):
     def fn(event, name, dispatcher):
+        LISTENER_CALLS.append(index)
         if l["kind"] == "handled":
             event.handled(True)
             event.set_status_code(H.value_of(l["code"]))
@@ -179,14 +184,15 @@ def run_impl(case):
         from clikit.api.io import IO, Input, Output
         from clikit.io.input_stream.string_input_stream import StringInputStream
         from clikit.io.output_stream.stream_output_stream import StreamOutputStream
-        raw = [_io.BytesIO(), _io.BytesIO()]
-        streams = [_io.TextIOWrapper(b, encoding=e) for b, e in zip(raw, case["enc"])]
+        raw = [_io.BytesIO() if e else _io.StringIO() for e in case["enc"]]
+        streams = [_io.TextIOWrapper(b, encoding=e) if e else b for b, e in zip(raw, case["enc"])]
         io = IO(Input(StringInputStream("")), Output(StreamOutputStream(streams[0]), fmt),
                 Output(StreamOutputStream(streams[1]), fmt))
     else:
         io = BufferedIO(formatter=fmt)
     io.set_verbosity(case["verbosity"])
     del H.CALLS[:]
+    del LISTENER_CALLS[:]
     app = _app(case, io)
     try:
         status = app.run(ArgvArgs(["prog"] + case["tokens"]))
@@ -194,12 +200,25 @@ def run_impl(case):
     except BaseException as e:  # noqa
         status, escaped = None, type(e).__name__
     if raw is not None:
-        out = "".join(b.getvalue().decode(e) for b, e in zip(raw, case["enc"]))
+        out = "".join(b.getvalue().decode(e) if e else b.getvalue() for b, e in zip(raw, case["enc"]))
     else:
         out = io.fetch_output() + io.fetch_error()
     return {"status": status if (status is None or isinstance(status, int)) else repr(status), "escaped": escaped,
             "reported": bool(out.strip()), "calls": len(H.CALLS), "call_args": [c["arguments"] for c in H.CALLS],
-            "status_type": type(status).__name__}
+            "status_type": type(status).__name__, "listener_calls": list(LISTENER_CALLS),
+            "shows_message": _shows_message(case, out)}
+
+
+def _shows_message(case, out):
+    """does the report show the text of the handler's exception (judged only where the stream can write it as it is:
+    UTF-8 and encoding-less text streams, plain formatter, messages without markup)"""
+    o = case["outcome"]
+    if "raise" not in o or case["ansi"] or not case.get("enc") or any(e not in (None, "utf-8") for e in case["enc"]):
+        return None
+    kind = o["raise"].get("msg", "plain")
+    if kind not in ("plain", "nonascii", "multiline") or o["raise"]["type"] in ("KeyboardInterrupt", "KeyError"):
+        return None
+    return all(line in out for line in H.make_message(kind).split("\n"))
 
 
 # ---- abstraction for the model -------------------------------------------------------------------
@@ -271,6 +290,19 @@ def oracle(case, obs):
                 break
         if l["kind"] == "stop":
             break
+    # which pre-handle listeners run: in priority order up to (and including) the first that stops propagation or fails;
+    # marking the command handled does not stop the others
+    if resolved and "listener_calls" in obs:
+        want_l = []
+        for i, l in enumerate(case["listeners"]):
+            want_l.append(i)
+            if l["kind"] in ("fail", "stop") or (l["kind"] == "handled" and l["stop"]):
+                break
+        got_l = [i for i in obs["listener_calls"] if i is not None]
+        if got_l != want_l:
+            return "pre-handle listeners called: %s, registered order up to the first stop: %s" % (got_l, want_l)
+    if obs.get("shows_message") is False:
+        return "the error report does not show the text of the exception"
     expect_calls = 1 if (resolved and handled is None and failed is None) else 0
     if obs["calls"] != expect_calls:
         return "the handler was invoked %d time(s), the statement requires %d" % (obs["calls"], expect_calls)
